@@ -171,7 +171,7 @@ func genAction(c *sim.Ctx, cfg genCfg, names []string, guard bool) *ref.Action {
 		if cfg.stubs && c.Chance(1, 4, "stub") {
 			// "same": hands back the very bindings it was given, as the shipped noop
 			// interpreter and the sio captain's native action do
-			a.Stub = []string{"nil-err", "partial-err", "nil-bs", "no-events", "same", "same"}[c.Intn(6, "stubkind")]
+			a.Stub = []string{"nil-err", "partial-err", "nil-bs", "no-events", "same", "same", "no-traces"}[c.Intn(7, "stubkind")]
 		} else if cfg.sameStub && c.Chance(1, 5, "samestub") {
 			a.Stub = "same"
 		}
@@ -481,6 +481,9 @@ func nativeAction(a *ref.Action) *core.FuncAction {
 		case "no-events":
 			// an Execution built by hand, without the constructor
 			return &core.Execution{Bs: match.Bindings{"made": "by hand"}}, nil
+		case "no-traces":
+			// an Execution built by hand with an Events value of its own
+			return &core.Execution{Bs: match.Bindings{"made": "by hand"}, Events: &core.Events{}}, nil
 		case "same":
 			return core.NewExecution(in), nil
 		}
